@@ -752,7 +752,7 @@ void ScriptEmitter::EmitCaseLabel(sval_t case_parm, sval_t parameter_list, sourc
 {
     if (case_parm.node[0].type == statementType_e::Integer)
     {
-        EmitCaseLabel(case_parm.node[1].intValue, sourceLoc);
+        EmitCaseLabel((int64_t)case_parm.node[1].longValue, sourceLoc);
     }
     else if (case_parm.node[0].type == statementType_e::String)
     {
@@ -760,7 +760,7 @@ void ScriptEmitter::EmitCaseLabel(sval_t case_parm, sval_t parameter_list, sourc
     }
     else if (case_parm.node[0].type == statementType_e::Func1Expr && case_parm.node[1].byteValue == OP_UN_MINUS)
     {
-        EmitCaseLabel(-(int32_t)case_parm.node[2].node[1].intValue, sourceLoc);
+        EmitCaseLabel((int64_t)(0 - case_parm.node[2].node[1].longValue), sourceLoc);
     }
     else
     {
@@ -785,9 +785,9 @@ void ScriptEmitter::EmitCaseLabel(const prchar_t* name, sourceLocation_t sourceL
     }
 }
 
-void ScriptEmitter::EmitCaseLabel(int32_t label, sourceLocation_t sourceLoc)
+void ScriptEmitter::EmitCaseLabel(int64_t label, sourceLocation_t sourceLoc)
 {
-    prchar_t name[11]{};
+    prchar_t name[24]{};
     std::to_chars(name, name + sizeof(name), label);
 
     EmitCaseLabel(name, sourceLoc);
